@@ -184,7 +184,10 @@ class AsyncTLSStreamTransport(AsyncStreamTransport):
                         try:
                             await self._retry_ssl_method(self._ssl_object.unwrap)
                         except OSError:
-                            pass
+                            # unwrap() may have written the "close notify" alert before failing
+                            # (e.g. application data received meanwhile and never read).
+                            with contextlib.suppress(OSError):
+                                await self.__flush_write_bio()
                         self._read_bio.write_eof()
                         self._write_bio.write_eof()
                     except BaseException:
